@@ -228,6 +228,16 @@ def gen_c16_float(rng, tier):
                     ins.append([rng.randrange(1, 64000) / 64.0 for _ in range(rng.randrange(0, L + 1))])
                 out.append((name, [k], ins))
     special = [float('nan'), float('inf'), float('-inf'), -0.0, 0.0, 5e-324, -5e-324, 1.7976931348623157e308]
+    # dividing helpers on zero, signed-zero, infinite and NaN operands: IEEE results (±Inf, NaN), never a substituted value
+    for name in ('Divide', 'ChangeRatio', 'ChangePercent', 'PowInv', 'Pow2', 'DivideBy'):
+        for n in range(1, L + 1):
+            k = rng.choice([1, 1, 2, 3]) if name in ('ChangeRatio', 'ChangePercent') else rng.randrange(1, 9)
+            mix = lambda: [rng.choice([0.0, 0.0, -0.0, float('inf'), float('-inf'), float('nan'), 5e-324]) if rng.random() < 0.45
+                           else rng.randrange(-640, 640) / 64.0 for _ in range(n)]
+            ins = [mix()]
+            if name == 'Divide':
+                ins.append(mix())
+            out.append((name, [k], ins))
     for name in EXACT_FLOAT:
         for n in range(L + 1):
             vals = [rng.choice(special) if rng.random() < 0.4 else rng.randrange(-64000, 64000) / 64.0 for _ in range(n)]
@@ -237,6 +247,17 @@ def gen_c16_float(rng, tier):
 
 
 EXACT_FLOAT = ['CountF', 'KeepPositivesF', 'KeepNegativesF', 'AbsF', 'SignF']     # no rounding involved: compared exactly
+
+
+def fdiv(x, y):
+    """IEEE 754 division (Python raises on a zero divisor)"""
+    import math
+    try:
+        return x / y
+    except ZeroDivisionError:
+        if x != x or x == 0:
+            return float('nan')
+        return math.copysign(float('inf'), math.copysign(1.0, x) * math.copysign(1.0, y))
 
 
 def py_helper_float(name, ps, ins):
@@ -259,11 +280,11 @@ def py_helper_float(name, ps, ins):
     if name == 'SignF':
         return [1.0 if x > 0 else (-1.0 if x < 0 else 0.0) for x in a]
     if name == 'ChangeRatio':
-        return [(a[i + k] - a[i]) / a[i] for i in range(max(0, len(a) - k))]
+        return [fdiv(a[i + k] - a[i], a[i]) for i in range(max(0, len(a) - k))]
     if name == 'ChangePercent':
-        return [(a[i + k] - a[i]) / a[i] * 100 for i in range(max(0, len(a) - k))]
+        return [fdiv(a[i + k] - a[i], a[i]) * 100 for i in range(max(0, len(a) - k))]
     if name == 'Divide':
-        return [x / y for x, y in zip(a, ins[1])]
+        return [fdiv(x, y) for x, y in zip(a, ins[1])]
     if name == 'DivideBy':
         return [x / float(k) for x in a]
     if name == 'Sqrt':
@@ -271,7 +292,7 @@ def py_helper_float(name, ps, ins):
     if name == 'Pow2':
         return [x * x for x in a]
     if name == 'PowInv':
-        return [1.0 / x for x in a]
+        return [fdiv(1.0, x) for x in a]
     if name == 'RoundDigits0':
         return [math.floor(abs(x) + 0.5) * (1 if x >= 0 else -1) for x in a]
     raise KeyError(name)
